@@ -4,6 +4,7 @@ CONSTANTS
   Sources <- Both
   BaseDepth = 2
   FinalOps = "few"
+  StartCalcs <- BothStarts
   Emit = TRUE
 INVARIANT ContentKept
 INVARIANT ColumnsKept
